@@ -27,6 +27,8 @@ import (
 	pb "github.com/lni/drummer/v3/drummerpb"
 	"github.com/lni/drummer/v3/settings"
 	"github.com/lni/goutils/random"
+	"google.golang.org/grpc/codes"
+	"google.golang.org/grpc/status"
 	"google.golang.org/protobuf/proto"
 )
 
@@ -155,8 +157,58 @@ func (s *server) SetBootstrapped(ctx context.Context,
 	return s.setFinalizedKV(ctx, bootstrappedKey, "true")
 }
 
+// validateRegions checks whether the region specification is usable, each
+// listed region must be named, listed once and come with its own count.
+func validateRegions(r *pb.Regions) error {
+	if r == nil || len(r.Region) == 0 {
+		return errors.New("empty region specification")
+	}
+	if len(r.Region) != len(r.Count) {
+		return errors.New("region list and count list have different lengths")
+	}
+	names := make(map[string]struct{})
+	for _, name := range r.Region {
+		if len(name) == 0 {
+			return errors.New("empty region name")
+		}
+		if _, ok := names[name]; ok {
+			return errors.New("duplicated region name")
+		}
+		names[name] = struct{}{}
+	}
+	return nil
+}
+
+// validateChange checks whether the change can be applied by the DB, which
+// asserts on anything that is not a well formed CREATE.
+func validateChange(c *pb.Change) error {
+	if c == nil || c.Type != pb.Change_CREATE {
+		return errors.New("unknown change type")
+	}
+	if len(c.Members) == 0 {
+		return errors.New("no member specified")
+	}
+	if len(c.AppName) == 0 {
+		return errors.New("empty app name")
+	}
+	members := make(map[uint64]struct{})
+	for _, m := range c.Members {
+		if m == 0 {
+			return errors.New("replica id 0 is not allowed")
+		}
+		if _, ok := members[m]; ok {
+			return errors.New("duplicated replica id")
+		}
+		members[m] = struct{}{}
+	}
+	return nil
+}
+
 func (s *server) SetRegions(ctx context.Context,
 	r *pb.Regions) (*pb.ChangeResponse, error) {
+	if err := validateRegions(r); err != nil {
+		return nil, status.Error(codes.InvalidArgument, err.Error())
+	}
 	data, err := proto.Marshal(r)
 	if err != nil {
 		panic(err)
@@ -166,6 +218,9 @@ func (s *server) SetRegions(ctx context.Context,
 
 func (s *server) SubmitChange(ctx context.Context,
 	c *pb.Change) (*pb.ChangeResponse, error) {
+	if err := validateChange(c); err != nil {
+		return nil, status.Error(codes.InvalidArgument, err.Error())
+	}
 	session, err := s.getSession(ctx, defaultShardID)
 	if err != nil {
 		return nil, err
